@@ -35,7 +35,7 @@ REQUIRED_MONITORS = {
     # context at that moment, frames reaching it after shutdown returned, raw peers that did not hang up on Release at once, a peer trying to connect afterwards
     "tcp_handshake_in_flight_at_shutdown": 200, "tcp_connect_pending_at_shutdown": 600, "tcp_frames_in_flight_at_shutdown": 500, "tcp_frames_arriving_after_shutdown": 500, "tcp_peer_not_hanging_up": 4000, "tcp_connect_attempt_after_shutdown": 600,
     # shutdown tied to a step of a connection's life cycle; thereof: the server created the protocol object of a new connection after shutdown() was called
-    "tcp_shutdown_tied_to_connection_event": 200, "tcp_accept_during_shutdown": 20, "tcp_request_cancelled_during_connection_setup": 300,
+    "tcp_shutdown_tied_to_connection_event": 200, "tcp_accept_during_shutdown": 20, "tcp_request_cancelled_during_connection_setup": 100,
     # the peer that never reads (one scenario in three): its connection had a write backlog when shutdown was called / close() on it was still pending when shutdown returned
     "tcp_resolving_at_shutdown": 3000, "tcp_clogged_connection_at_shutdown": 300, "tcp_shutdown_stalled_by_clogged_peer": 300,
 }
@@ -502,7 +502,9 @@ def variant_tcp(vseed):
     r = random.Random(vseed * 7919 + 11)
     return {
         "delay": r.choice([0.05, 0.2, 0.3]),  # one-way link delay; the handshake takes two of them
-        "slow": r.choice([0.05, 0.4, 2.0]),  # duration of the victim's handlers
+        # duration of the victim's handlers: each of the three in every run (three consecutive scenario numbers), paired
+        # with the other per-scenario features differently from run to run
+        "slow": (r.choice([0.05, 0.4, 2.0]), [0.05, 0.4, 2.0][(vseed + vseed // 1000) % 3])[1],
         "resp_after": r.choice([0.3, 0.8, 1.7]),  # raw servers answer after ...
         "ping_every": r.choice([1.3, 2.3]),
         "notify_every": r.choice([0.7, 1.5]),
